@@ -59,42 +59,45 @@ func (c *Ctx) ruleUnsetNil(rule string) {
 		}
 		k := key(rule, c.M.Key(fn), "the zero value in the field of a disabled property is reported as unset")
 		handled := false
-		for _, b := range fn.Blocks {
-			if len(b.Instrs) == 0 {
-				continue
-			}
-			ifi, ok := b.Instrs[len(b.Instrs)-1].(*ssa.If)
-			if !ok {
-				continue
-			}
-			ld, ok := ifi.Cond.(*ssa.UnOp)
-			if !ok || ld.Op != token.MUL {
-				continue
-			}
-			fa, ok := ld.X.(*ssa.FieldAddr)
-			if !ok || fieldName(fa.X.Type(), fa.Field) != "Disabled" {
-				continue
-			}
-			target := b.Succs[0]
-			for _, nb := range fn.Blocks {
-				if nb != target && !blockReaches(target, nb, nil) {
+		for _, dec := range presenceDeciders(fn) {
+			fn := dec.fn
+			for _, b := range fn.Blocks {
+				if len(b.Instrs) == 0 {
 					continue
 				}
-				if len(nb.Instrs) == 0 {
-					continue
-				}
-				nif, ok := nb.Instrs[len(nb.Instrs)-1].(*ssa.If)
+				ifi, ok := b.Instrs[len(b.Instrs)-1].(*ssa.If)
 				if !ok {
 					continue
 				}
-				zc, ok := nif.Cond.(*ssa.Call)
-				if !ok || reflectValueMethod(zc) != "IsZero" {
+				ld, ok := ifi.Cond.(*ssa.UnOp)
+				if !ok || ld.Op != token.MUL {
 					continue
 				}
-				yes := nb.Succs[0]
-				for _, r := range core.ReturnsOf(fn) {
-					if core.IsNilConst(core.RetVal(r, 0)) && (r.Block() == yes || blockReaches(yes, r.Block(), nil)) {
-						handled = true
+				fa, ok := ld.X.(*ssa.FieldAddr)
+				if !ok || fieldName(fa.X.Type(), fa.Field) != "Disabled" {
+					continue
+				}
+				target := b.Succs[0]
+				for _, nb := range fn.Blocks {
+					if nb != target && !blockReaches(target, nb, nil) {
+						continue
+					}
+					if len(nb.Instrs) == 0 {
+						continue
+					}
+					nif, ok := nb.Instrs[len(nb.Instrs)-1].(*ssa.If)
+					if !ok {
+						continue
+					}
+					zc, ok := nif.Cond.(*ssa.Call)
+					if !ok || reflectValueMethod(zc) != "IsZero" {
+						continue
+					}
+					yes := nb.Succs[0]
+					for _, r := range core.ReturnsOf(fn) {
+						if dec.unset(core.RetVal(r, dec.idx)) && (r.Block() == yes || blockReaches(yes, r.Block(), nil)) {
+							handled = true
+						}
 					}
 				}
 			}
@@ -153,22 +156,111 @@ func isPresenceFunction(fn *ssa.Function) bool {
 	if !ok || nt.Obj().Pkg() == nil || nt.Obj().Pkg().Path() != "reflect" || nt.Obj().Name() != "Value" {
 		return false
 	}
-	for _, b := range fn.Blocks {
-		for _, in := range b.Instrs {
-			if call, ok := in.(*ssa.Call); ok {
-				switch reflectValueMethod(call) {
-				case "FieldByIndexErr", "FieldByIndex", "FieldByName":
-					if len(call.Call.Args) == 2 && fromStructField(call.Call.Args[1]) {
-						return true
+	looksUp := func(g *ssa.Function) bool {
+		for _, b := range g.Blocks {
+			for _, in := range b.Instrs {
+				if call, ok := in.(*ssa.Call); ok {
+					switch reflectValueMethod(call) {
+					case "FieldByIndexErr", "FieldByIndex", "FieldByName":
+						if len(call.Call.Args) == 2 && fromStructField(call.Call.Args[1]) {
+							return true
+						}
 					}
 				}
+			}
+		}
+		return false
+	}
+	if looksUp(fn) {
+		return true
+	}
+	// ... or hands the lookup to a finder of the package that returns the field as a reflect.Value
+	for _, b := range fn.Blocks {
+		for _, in := range b.Instrs {
+			call, ok := in.(*ssa.Call)
+			if !ok {
+				continue
+			}
+			if g := core.StaticBody(&call.Call); g != nil && g != fn && g.Pkg == fn.Pkg && g.Signature.Results().Len() >= 1 &&
+				typeStr(g.Signature.Results().At(0).Type()) == "reflect.Value" && len(core.PlainSites(g)) > 0 && looksUp(g) {
+				return true
 			}
 		}
 	}
 	return false
 }
 
-func presenceHandlesKind(fn *ssa.Function, kind int64) bool {
+// presenceDecider: a function in which "the property is not set" is decided - the presence function itself (its unset
+// answer: nil in result 0), or a decider it calls (a function of the package that is handed the field as a reflect.Value
+// and has a bool result whose false makes the presence function return nil: its unset answer is false in that result).
+type presenceDecider struct {
+	fn    *ssa.Function
+	idx   int
+	unset func(ssa.Value) bool
+}
+
+func presenceDeciders(p *ssa.Function) []presenceDecider {
+	out := []presenceDecider{{p, 0, core.IsNilConst}}
+	isFalse := func(v ssa.Value) bool {
+		cst, ok := v.(*ssa.Const)
+		return ok && cst.Value != nil && cst.Value.Kind() == constant.Bool && !constant.BoolVal(cst.Value)
+	}
+	for _, b := range p.Blocks {
+		for _, in := range b.Instrs {
+			call, ok := in.(*ssa.Call)
+			if !ok || call.Referrers() == nil {
+				continue
+			}
+			d := core.StaticBody(&call.Call)
+			if d == nil || d == p || d.Pkg != p.Pkg || len(core.PlainSites(d)) == 0 {
+				continue
+			}
+			takesField := false
+			for _, prm := range d.Params {
+				if typeStr(prm.Type()) == "reflect.Value" {
+					takesField = true
+				}
+			}
+			if !takesField {
+				continue
+			}
+			for _, r := range *call.Referrers() {
+				ex, isEx := r.(*ssa.Extract)
+				if !isEx {
+					continue
+				}
+				bt, isBasic := ex.Type().Underlying().(*types.Basic)
+				if !isBasic || bt.Kind() != types.Bool {
+					continue
+				}
+				// false makes the presence function answer unset
+				for _, ret := range core.ReturnsOf(p) {
+					if !core.IsNilConst(core.RetVal(ret, 0)) {
+						continue
+					}
+					for _, cond := range ret.Conds() {
+						if core.Unwrap(cond.V) == ssa.Value(ex) && !cond.True {
+							out = append(out, presenceDecider{d, ex.Index, isFalse})
+						}
+					}
+				}
+			}
+		}
+	}
+	return out
+}
+
+func presenceHandlesKind(p *ssa.Function, kind int64) bool {
+	for _, d := range presenceDeciders(p) {
+		if deciderHandlesKind(d, kind) {
+			return true
+		}
+	}
+	return false
+}
+
+func deciderHandlesKind(d presenceDecider, kind int64) bool {
+	fn := d.fn
 	if len(fn.Blocks) == 0 {
 		return false
 	}
@@ -215,10 +307,10 @@ func presenceHandlesKind(fn *ssa.Function, kind int64) bool {
 					return false
 				}
 				r, isRet := tb.Instrs[len(tb.Instrs)-1].(*ssa.Return)
-				if !isRet || len(r.Results) == 0 {
+				if !isRet || len(r.Results) <= d.idx {
 					return false
 				}
-				v := core.RetVal(r, 0)
+				v := core.RetVal(r, d.idx)
 				if phi, isPhi := v.(*ssa.Phi); isPhi && phi.Block() == tb && prev != nil {
 					for i, p := range tb.Preds {
 						if p == prev {
@@ -226,7 +318,7 @@ func presenceHandlesKind(fn *ssa.Function, kind int64) bool {
 						}
 					}
 				}
-				return core.IsNilConst(v)
+				return d.unset(v)
 			})
 			if after {
 				return true
